@@ -6,6 +6,7 @@ import (
 	"fmt"
 	"math"
 	"math/rand"
+	"verif/libx"
 
 	modbus "github.com/aldas/go-modbus-client"
 	"github.com/aldas/go-modbus-client/packet"
@@ -205,7 +206,12 @@ func run(ci any, r *mon.Rec) {
 		for _, lenient := range []bool{true, false} {
 			var vals []modbus.FieldValue
 			var xerr error
-			if p, txt := mon.Catch(func() { vals, xerr = rq.ExtractFields(resp, lenient) }); p {
+			arg := resp
+			if (c.Seed+int64(qi))%2 == 0 {
+				arg = libx.ValueForm(resp) // callers hold responses by value as well as by pointer
+				r.Cover("response-form", "value")
+			}
+			if p, txt := mon.Catch(func() { vals, xerr = rq.ExtractFields(arg, lenient) }); p {
 				r.Violate(c, "extract-panics", mon.Attrs{"lenient": lenient, "short": c.Short > 0}, fmt.Sprintf("request %d start %d qty %d (device delivered %d): %s", qi, rq.StartAddress, dq.Qty, got, txt))
 				continue
 			}
